@@ -11,7 +11,7 @@ PID = 'C09'
 TOL = 2e-5
 
 
-def one_fit(rng, fam, kind, ns, nu, rho, max_iter, trunc, solver_iters=None, unit=None):
+def one_fit(rng, fam, kind, ns, nu, rho, max_iter, trunc, solver_iters=None, unit=None, helpers=False):
     X, A0, B0 = lmi.linear_data(rng, ns, nu, kind=kind)
     if unit is not None:
         X = np.array(X, copy=True); X[:, ns] *= unit          # the last state recorded in other units
@@ -28,6 +28,9 @@ def one_fit(rng, fam, kind, ns, nu, rho, max_iter, trunc, solver_iters=None, uni
         tu = None if trunc is None else pykoop.Tsvd(*trunc)
         reg = L.LmiDmdcSpectralRadiusConstr(tsvd_unshifted=tu, **kw)
     reg.fit(X, n_inputs=nu, episode_feature=True)
+    if helpers:
+        from .. import readonly
+        readonly.exercise(reg, X)       # documented as reading only: the bound must hold for what the estimator holds afterwards
     A, B = lmi.ab(reg, ns)
     info = None
     sr = float(np.max(np.abs(np.linalg.eigvals(A)))) if np.all(np.isfinite(A)) else float('inf')
@@ -68,7 +71,8 @@ def run(res, tier):
         if solver_iters is not None:
             kind = 'unstable'; rho = float(rng.choice([0.1, 0.3]))
         try:
-            info, desc, X = one_fit(rng, fam, kind, ns, nu, rho, max_iter, trunc, solver_iters)
+            info, desc, X = one_fit(rng, fam, kind, ns, nu, rho, max_iter, trunc, solver_iters, helpers=(cid % 3 == 0))
+            desc['read_only_helpers_called_first'] = bool(cid % 3 == 0)
             common.note_case('fit', desc.get('estimator'), X)
             desc['solver_max_iterations'] = solver_iters
         except Exception as e:  # noqa
@@ -137,6 +141,36 @@ def run(res, tier):
                                  'is not that of a fresh fit (increases / carries entries of the earlier fit)',
                             achieved_radius=sr, log=list(map(float, reg.objective_log_)), log_fresh=list(map(float, fresh.objective_log_)),
                             estimator=repr(reg), X=X.tolist()))
+    # the same history through a KoopmanPipeline (the regressor reached by regressor__spectral_radius), and a refit on data
+    # in other units on which the solver may give up with an arithmetic error: a fit that returns must respect the bound in
+    # force, whatever happened to earlier fits of the same object
+    for h in range(4 if tier == 'quick' else 16):
+        cls = [L.LmiEdmdSpectralRadiusConstr, L.LmiDmdcSpectralRadiusConstr][h % 2]
+        X, _, _ = lmi.linear_data(rng, 2, 1, kind='unstable')
+        try:
+            if h < 2 or h % 4 < 2:
+                est = pykoop.KoopmanPipeline(regressor=cls(spectral_radius=1.1, max_iter=3, solver_params=lmi.SOLVER))
+                est.fit(X, n_inputs=1, episode_feature=True)
+                est.set_params(regressor__spectral_radius=0.6)
+                est.fit(X, n_inputs=1, episode_feature=True)
+                held = est.regressor_
+                how = 'KoopmanPipeline refitted after set_params(regressor__spectral_radius=0.6)'
+            else:
+                est = cls(spectral_radius=1.1, max_iter=3, solver_params=lmi.SOLVER).fit(X, n_inputs=1, episode_feature=True)
+                est.set_params(spectral_radius=0.6)
+                Xs = np.array(X, copy=True); Xs[:, 1:] *= 100.0
+                est.fit(Xs, n_inputs=1, episode_feature=True)          # (cvxopt may raise ZeroDivisionError here: then nothing is claimed)
+                held = est
+                how = 'estimator refitted after set_params(spectral_radius=0.6) on the same data in units 100 times larger'
+        except Exception:  # noqa
+            dist['fit_error'] = dist.get('fit_error', 0) + 1
+            continue
+        dist['refit_history_pipeline_or_units'] = dist.get('refit_history_pipeline_or_units', 0) + 1
+        A, _ = lmi.ab(held, 2)
+        sr = float(np.max(np.abs(np.linalg.eigvals(A))))
+        if sr > 0.6 * (1 + TOL) + TOL:
+            bad.append(dict(what='a fit that completed after the bound was tightened returns a matrix outside the bound in force',
+                            history=how, achieved_radius=sr, bound=0.6, estimator=repr(est), X=X.tolist()))
     # another estimator object fitted earlier with loosened solver tolerances must not change what a later estimator
     # with default settings is solved with (solver_params_ and result as in a process where the loose fit never ran)
     loose = dict(lmi.SOLVER, abs_prim_fsb_tol=1e-3, rel_prim_fsb_tol=1e-3, abs_dual_fsb_tol=1e-3, rel_dual_fsb_tol=1e-3,
